@@ -326,6 +326,10 @@ func runMintSeq(c *Ctx) {
 	if c.Thorough {
 		histories, minOps, maxOps = 150, 80, 200
 	}
+	// sharded runs (different seeds) split the histories between them
+	if !c.Thorough {
+		histories = (histories + c.ShardN - 1) / c.ShardN
+	}
 	for h := 0; h < histories; h++ {
 		runOneHistory(c, h, minOps+c.Rng.Intn(maxOps-minOps+1), true)
 	}
@@ -657,6 +661,9 @@ func init() {
 			histories := 30
 			if c.Thorough {
 				histories = 300
+			}
+			if !c.Thorough {
+				histories = (histories + c.ShardN - 1) / c.ShardN
 			}
 			for h := 0; h < histories; h++ {
 				runOneHistory(c, h, 80+c.Rng.Intn(100), false)
